@@ -161,6 +161,13 @@ func checkInstant(c dateCase) string {
 	if s, ok := arr[8].(string); !ok || s != wantFmt {
 		return fmt.Sprintf("timeFormat(%s, '2006-01-02 15:04:05') = %s, want %q", what, obs.Show(arr[8]), wantFmt)
 	}
+	// timeFormat renders the time in any Go layout (the layout language is Go's; the reference is the caller's own time value)
+	for _, layout := range []string{time.RFC3339, time.RFC3339Nano, time.RFC1123Z, time.Kitchen, "Jan 2, 2006 at 3:04pm (MST)", "02/01/06 15h04", "2006-002", "Monday, 02-Jan-06", "15:04:05.000", "2006", "no layout tokens: xyz"} {
+		out := evalWith("timeFormat(t, lay)", map[string]interface{}{"t": t0, "lay": layout})
+		if got, ok := out.Val.(string); out.Panic != nil || out.Err != nil || !ok || got != t0.Format(layout) {
+			return fmt.Sprintf("timeFormat(%s, %q) = %s, want %q", what, layout, out, t0.Format(layout))
+		}
+	}
 	// useTimezone: the instant never changes; known fixed offsets show in hour/minute
 	if c.To != "" {
 		out := evalWith(fmt.Sprintf("useTimezone(t, '%s')", c.To), data)
